@@ -111,9 +111,12 @@ Definition coerce (ty : Z) (v : pyval) : fres :=
   if ty =? 3 then
     match v with
     | PInt z =>
+      (* struct.pack('>f', int): struct.error both when the int does not fit a
+         double ("required argument is not a float") and when it does not fit
+         binary32 ("int too large to convert") *)
       match of_Z_opt z with
-      | None => FCrash KStruct             (* struct.pack: "required argument is not a float" *)
-      | Some f => match to_single f with Some f' => FVal (PFlt f') | None => FOverflow end
+      | None => FCrash KStruct
+      | Some f => match to_single f with Some f' => FVal (PFlt f') | None => FCrash KStruct end
       end
     | PFlt f => match to_single f with Some f' => FVal (PFlt f') | None => FOverflow end
     | PStrV _ => FCrash KStruct
@@ -416,22 +419,28 @@ Fixpoint type_ok (e : cexpr) : bool :=
     ((is_num lt && is_num rt) || ((lt =? 5) && (rt =? 5) && (is_cmp op || is_add op)))
   end.
 
-(* QvmInstr.final: value in (-2, -1, 0, 1, 2) -> push2 .. pushm2 *)
+(* QvmInstr.final: value in (-2, -1, 0, 1, 2) -> push2 .. pushm2.  Python's
+   "in" compares numerically (1.0 == 1, -0.0 == 0); on canonical floats - the
+   only ones that cross the harness boundary (fl_of_bits) or result from Fl
+   operations on canonical inputs - that is the structural test below. *)
 Definition small_const (v : pyval) : option Z :=
   match v with
   | PInt z => if (-2 <=? z) && (z <=? 2) then Some z else None
-  | PFlt f =>
-    if feqb f (of_Z 0) then Some 0
-    else if feqb f (of_Z 1) then Some 1 else if feqb f (of_Z (-1)) then Some (-1)
-    else if feqb f (of_Z 2) then Some 2 else if feqb f (of_Z (-2)) then Some (-2)
-    else None
-  | PStrV _ => None
+  | PFlt (FFin _ 0 0) => Some 0
+  | PFlt (FFin false 1 0) => Some 1
+  | PFlt (FFin true 1 0) => Some (-1)
+  | PFlt (FFin false 1 1) => Some 2
+  | PFlt (FFin true 1 1) => Some (-2)
+  | _ => None
   end.
 
 Inductive cgres := CgOk (l : list instr) | CgCrash (k : fkind) | CgIllTyped | CgUnmodelled.
 
 (* the assembled push of a numeric literal of type ty holding the (already
-   py_type-converted) value v *)
+   py_type-converted) value v.  push! carries the literal's double; it is
+   rounded to binary32 when the instruction is loaded (struct.pack('>f') in the
+   assembler = the to_single of Cpu.exec's push 3), after the assembler's
+   OverflowError check made here. *)
 Definition push_lit (ty : Z) (v : pyval) : cgres :=
   match small_const v with
   | Some c => CgOk [IPushC ty c]
@@ -439,7 +448,7 @@ Definition push_lit (ty : Z) (v : pyval) : cgres :=
     match ty, v with
     | 1, PInt z => if in_int z then CgOk [IPushI z] else CgCrash KStruct
     | 2, PInt z => if in_long z then CgOk [IPushL z] else CgCrash KStruct
-    | 3, PFlt f => match to_single f with Some f' => CgOk [IPushS f'] | None => CgCrash KOverflow end
+    | 3, PFlt f => match to_single f with Some _ => CgOk [IPushS f] | None => CgCrash KOverflow end
     | 4, PFlt f => CgOk [IPushD f]
     | _, _ => CgUnmodelled
     end
@@ -557,6 +566,17 @@ Definition rt_eval (e : cexpr) : rres :=
   | CgCrash k => RAsmCrash k
   | CgIllTyped => RIllTyped
   | CgUnmodelled => RUnmodelled
+  end.
+
+(* the cell of type ty holding exactly the Python value v *)
+Definition cell_of_val (ty : Z) (v : pyval) : option cell :=
+  match ty, v with
+  | 1, PInt z => Some (CI z)
+  | 2, PInt z => Some (CL z)
+  | 3, PFlt f => Some (CS f)
+  | 4, PFlt f => Some (CD f)
+  | 5, PStrV s => Some (CStr s)
+  | _, _ => None
   end.
 
 (* the cell a literal of type ty and value v is loaded as; None = not encodable *)
@@ -698,12 +718,28 @@ Definition fx_checked (ty : Z) (v : pyval) : fxres :=
 Definition fx_bind (r : fxres) (k : pyval -> fxres) : fxres :=
   match r with FxV v => k v | _ => r end.
 
+(* Type.converted(value): what the conv instruction does at run time (nothing
+   when the types are equal, as gen_code_for_conv emits nothing) *)
+Definition conv_fixed (from to : Z) (v : pyval) : fxres :=
+  if from =? to then FxV v else
+  match v with
+  | PInt z => fx_checked to (if (to =? 3) || (to =? 4) then PFlt (of_Z z) else v)
+  | PFlt f =>
+    if (to =? 1) || (to =? 2) then
+      match f with
+      | FNaN | FInf _ => FxRefuse
+      | _ => match fround f with Some z => fx_checked to (PInt z) | None => FxRefuse end
+      end
+    else fx_checked to v
+  | PStrV _ => FxRefuse
+  end.
+
 (* Expr.eval after the fix: the value of the run-time cell, or a refusal *)
 Fixpoint eval_fixed (e : cexpr) : fxres :=
   match e with
   | CNum ty v =>
     match py_type_conv ty v with
-    | FVal v' => fx_checked ty v'          (* NumericLiteral.eval: Type.checked(value) *)
+    | FVal v' => if is_num ty then fx_checked ty v' else FxRefuse   (* NumericLiteral.eval: Type.stored(value) *)
     | _ => FxRefuse
     end
   | CStrLit s => FxV (PStrV s)
@@ -722,7 +758,7 @@ Fixpoint eval_fixed (e : cexpr) : fxres :=
       end
     | UNot =>
       let rty := if aty =? 1 then 1 else 2 in
-      fx_bind (fx_checked rty v) (fun w =>
+      fx_bind (conv_fixed aty rty v) (fun w =>
       match w with PInt z => fx_checked rty (PInt (Z.lnot z)) | _ => FxRefuse end)
     end)
   | CBin op l r =>
@@ -732,9 +768,9 @@ Fixpoint eval_fixed (e : cexpr) : fxres :=
     if negb ((is_num lt && is_num rt) || ((lt =? 5) && (rt =? 5) && (is_cmp op || is_add op)))
     then FxRefuse else
     fx_bind (eval_fixed l) (fun lv =>
-    fx_bind (fx_checked ot lv) (fun a =>
+    fx_bind (conv_fixed lt ot lv) (fun a =>
     fx_bind (eval_fixed r) (fun rv =>
-    fx_bind (fx_checked ot rv) (fun b =>
+    fx_bind (conv_fixed rt ot rv) (fun b =>
     match raw_op op a b with
     | RawV v => fx_checked T v
     | RawRefuse => FxRefuse
@@ -752,14 +788,14 @@ Definition fold_fixed (e : cexpr) : foldres :=
 (* code generation after the fix: only the type of \ changed; a literal that
    is negative zero keeps its sign (QvmInstr.final) *)
 Definition is_neg_zero (v : pyval) : bool :=
-  match v with PFlt (FFin true m _) => m <=? 0 | _ => false end.
+  match v with PFlt (FFin true 0 0) => true | _ => false end.
 
 Definition push_lit_fixed (ty : Z) (v : pyval) : cgres :=
   if is_neg_zero v then
-    match ty with
-    | 3 => CgOk [IPushS (fzero true)]
-    | 4 => CgOk [IPushD (fzero true)]
-    | _ => CgUnmodelled
+    match ty, v with
+    | 3, PFlt f => CgOk [IPushS f]
+    | 4, PFlt f => CgOk [IPushD f]
+    | _, _ => CgUnmodelled
     end
   else push_lit ty v.
 
